@@ -395,6 +395,121 @@ def run(ctx):
                 ctx.bad(R_probe, key, "%s:%d" % (f.file, lp["ln"]), "probe loop over `%s` starts at `%s`; exits comparing the index: %s" % (idx, (rs or "?")[:70], [e_[0][:60] for e_ in exits] or "none"),
                         "with no never-used slot in the table (every slot occupied or a tombstone — an attacker-chosen or simply full table) a lookup of an absent name never returns")
 
+    # I: a vector whose length was clamped to what the input could supply (`ideal.min(available)`) is not indexed by a counter
+    #    that runs to the unclamped count
+    R_clamp = ctx.rule("C05.I-clamped-length-not-indexed-by-unclamped-counter", "no `v[i]` where v was built with a length that passed through min(..) while i derives from nothing that passed through the same min", floor=300)
+    for crate_ in crates:
+        for f in crate_.fn_list:
+            if "::tests::" in f.path or "::test_utils" in f.path or not f.mir.get("blocks"):
+                continue
+            du_i = None
+            for bb, t in mirg.iter_calls(f):
+                cn_ = mirg.callee(t) or ""
+                if not re.search(r"Vec<.*> as core::ops::index::Index(Mut)?<.*>>::index(_mut)?$", cn_) or len(t["a"]) != 2 or t.get("x"):
+                    continue
+                il = op_local(t["a"][1])
+                if il is None:
+                    continue
+                du_i = du_i or mirg.DefUse(f)
+                _va, vcalls, _ = du_i.slice_back(op_local(t["a"][0]), depth=14)
+                mins = set()
+                for cc in vcalls:
+                    if re.search(r"from_elem$|with_capacity$", ncallee(cc) or ""):
+                        for a in cc["a"]:
+                            al = op_local(a)
+                            if al is None:
+                                continue
+                            for m_ in du_i.slice_back(al, depth=10)[1]:
+                                if re.search(r"::min$", ncallee(m_) or ""):
+                                    mins.add(plocal(m_["d"]))
+                if not mins or (mins & du_i.slice_back(il, depth=12)[0]):
+                    ctx.rules[R_clamp]["obligations"] += 1
+                    ctx.rules[R_clamp]["discharged"] += 1
+                    continue
+                ctx.saw_fn(f)
+                ctx.bad(R_clamp, "I|%s|%d" % (f.path, len([1 for v in ctx.violations if v.key.startswith("I|%s|" % f.path)])), "%s:%d" % (f.file, t["ln"]),
+                        "a vector allocated with a length clamped by min(..) is indexed by a value that does not depend on that clamp",
+                        "when the input supplies fewer elements than the header's count (the clamp bites) the loop still indexes up to the count: index out of bounds panic instead of an error")
+
+    # H: a `continue` in a `while` loop is reached only after something the loop condition depends on was advanced
+    R_cont = ctx.rule("C05.H-while-continue-makes-progress", "in every `while cond` loop of the format crates, each `continue` is preceded on its path through the body by an update of a variable the condition reads", floor=40)
+
+    def _locals_in(n):
+        return {x["res"]["local"] for x in hirq.walk(n) if x.get("k") == "path" and "local" in x["res"]}
+
+    def _updates(st, V):
+        """does this statement (anywhere inside, closures excluded) assign to / mutably use a variable of V?"""
+        for x in hirq.walk(st, into_closures=False):
+            if x.get("k") in ("assign", "assignop") and (_locals_in(x["l"]) & V):
+                return True
+            if x.get("k") == "mcall" and hirq.strip(x["recv"]).get("k") == "path" and hirq.strip(x["recv"])["res"].get("local") in V and \
+                    re.search(r"^(next|read\w*|seek|advance|consume|pop\w*|push\w*|take|skip|truncate|drain|remove|insert|set_position|fill_buf|split_off|clear)$", x["m"]):
+                return True
+            if x.get("k") == "ref" and x.get("mut") and (_locals_in(x["e"]) & V):
+                return True
+        return False
+
+    def _path_to(root, target, before):
+        """statements executed before `target` on the way down from `root` (sequential predecessors in each enclosing block)"""
+        if root is target:
+            return before
+        if isinstance(root, dict):
+            if root.get("k") == "block":
+                acc = list(before)
+                for st in root.get("stmts", []):
+                    r_ = _path_to(st, target, acc)
+                    if r_ is not None:
+                        return r_
+                    acc = acc + [st]
+                if root.get("e") is not None:
+                    return _path_to(root["e"], target, acc)
+                return None
+            if root.get("k") in ("closure",):
+                return None
+            for k_, v_ in root.items():
+                if isinstance(v_, (dict, list)):
+                    r_ = _path_to(v_, target, before)
+                    if r_ is not None:
+                        return r_
+        elif isinstance(root, list):
+            for x in root:
+                r_ = _path_to(x, target, before)
+                if r_ is not None:
+                    return r_
+        return None
+    for crate_ in crates:
+        for f in crate_.fn_list:
+            if f.kind == "Closure" or not f.hir or "::tests::" in f.path or "::test_utils" in f.path:
+                continue
+            for lp in hirq.find(f.hir["body"], "loop"):
+                if lp.get("src") != "While":
+                    continue
+                head = hirq.strip(lp["body"])       # `while c {..}` is `loop { if c {..} else { break } }`
+                if head is None or head.get("k") != "if":
+                    continue
+                V = _locals_in(head["c"])
+                # every exit test of the loop counts: `if offset >= raw.len() { break }` makes `offset` a progress variable too
+                for n_ in hirq.find(head["then"], "if"):
+                    if any(x.get("k") in ("break", "ret") for x in hirq.walk(n_["then"], into_closures=False)) or \
+                            (n_.get("else") is not None and any(x.get("k") in ("break", "ret") for x in hirq.walk(n_["else"], into_closures=False))):
+                        V |= _locals_in(n_["c"])
+                conts = []
+                inner = [l2 for l2 in hirq.walk(head["then"], into_closures=False) if l2.get("k") in ("loop", "for") and l2 is not lp]
+                for ct in hirq.walk(head["then"], into_closures=False):
+                    if ct.get("k") == "continue" and not any(any(y is ct for y in hirq.walk(l2)) for l2 in inner):
+                        conts.append(ct)
+                if not conts:
+                    ctx.ok(R_cont, {"fn": f.path, "loop_line": lp.get("ln"), "continues": 0}) if len(ctx.samples) < 400 else (ctx.rules[R_cont].__setitem__("obligations", ctx.rules[R_cont]["obligations"] + 1), ctx.rules[R_cont].__setitem__("discharged", ctx.rules[R_cont]["discharged"] + 1))
+                    continue
+                ctx.saw_fn(f)
+                for ct in conts:
+                    pre = _path_to(head["then"], ct, []) or []
+                    if any(_updates(st, V) for st in pre):
+                        ctx.ok(R_cont, {"fn": f.path, "continue_line": ct["ln"], "progress": True})
+                    else:
+                        ctx.bad(R_cont, "H|%s|continue" % f.path, "%s:%d" % (f.file, ct["ln"]), "`continue` at line %d is reached without any update of %s, which `while %s` depends on" % (ct["ln"], sorted(V), hirq.render(head["c"])[:50]),
+                                "for an input that takes this path the loop re-evaluates the same state forever: the parser hangs instead of returning")
+
     # recursion
     graph = {}
     for p in reach:
